@@ -684,10 +684,12 @@ func (e *Engine) validateSamples(results []*EntryResult) (int, []string) {
 	if seen == 0 {
 		if strings.Contains(string(out), "[build failed]") {
 			bad = append(bad, "native sample replay does not build: "+lastLines(string(out), 30))
+		} else if strings.Contains(string(out), "panic:") || strings.Contains(string(out), "fatal error:") {
+			bad = append(bad, "native sample replay crashed (the executor did not): "+lastLines(string(out), 30))
 		} else {
 			// the native run did not get to a result three times (machine load, a port in use ...):
 			// no validation this time; not a disagreement
-			fmt.Printf("[%s] native validation could not be run: %s\n", e.cfg.Property, lastLines(string(out), 6))
+			fmt.Printf("[%s] native validation could not be run: %s\n", e.cfg.Property, lastLines(string(out), 45))
 		}
 	}
 	return validated, bad
